@@ -3,7 +3,7 @@ import re
 from fractions import Fraction as F
 
 from vlib import core, siref, world as W, qtyops as Q
-from vlib.core import cn, cq, clist, copt
+from vlib.core import cn, clist, copt
 from vlib.pyround import to_quantum
 
 PID = 'C18'
@@ -16,6 +16,25 @@ SHARD = 250
 
 PRE = {'predefined': True}
 _PRE_VIEWS = W.Views(PRE)
+
+
+def cq(x):
+    """rational literal; big numbers in hexadecimal (Coq reads long decimal
+    literals in quadratic time)"""
+    x = F(x)
+    n, d = x.numerator, x.denominator
+    if abs(n) < 10 ** 15 and d < 10 ** 15:
+        return f"(({n})%Z # {d})"
+    sn = ('-' if n < 0 else '') + hex(abs(n))
+    return f"(({sn})%Z # {d:#x})"
+
+
+def coq_obs(o, views):
+    """world.coq_obs with the literal writer above"""
+    if o['k'] == 'qty' and not o.get('float') and o['sym'] in views.units:
+        cid = views.cls_ids.get(o['cls'], 999999)
+        return f"(OQty {cn(cid)} {cn(views.units[o['sym']]['id'])} {cq(F(o['amt']))})"
+    return W.coq_obs(o, views)
 
 
 def cstr(s):
@@ -174,6 +193,9 @@ def num_value(spec):
     return F(val)
 
 
+SHORT_NUMBERS = [n for n in NUMBERS if len(str(num_value(n))) < 60]
+
+
 def _mknum(spec):
     kind, val = spec
     if kind == 'bool':
@@ -253,6 +275,13 @@ def gen_cases(rng, tier):
             return rng.choice(worlds[1:])
         return dict(W.random_world(rng, n_classes=2), predefined=True)
 
+    def pick_num():
+        n = rng.choice(NUMBERS)
+        if not thorough and n[0] == 'float' and len(str(num_value(n))) > 150 \
+                and rng.random() < 0.6:
+            return pick_num()        # quick tier: fewer 1000-digit texts
+        return n
+
     def rt(world, sym, how, n, unit=None, dm=None):
         return {'kind': 'rt', 'world': world, 'dm': dm or rng.choice(W.MODES),
                 'u': sym, 'how': how, 'n': n, 'unit': unit}
@@ -261,8 +290,8 @@ def gen_cases(rng, tier):
     for sym in pre_syms:
         reps = 3 if thorough else 1
         for _ in range(reps):
-            cases.append(rt(PRE, sym, 'generic', rng.choice(NUMBERS)))
-            cases.append(rt(PRE, sym, 'own', rng.choice(NUMBERS)))
+            cases.append(rt(PRE, sym, 'generic', pick_num()))
+            cases.append(rt(PRE, sym, 'own', pick_num()))
         if thorough:
             for n in NUMBERS[::8]:
                 cases.append(rt(PRE, sym, rng.choice(['generic', 'own']), n))
@@ -278,7 +307,7 @@ def gen_cases(rng, tier):
                 continue
             for how in ('generic', 'own'):
                 for _ in range(3 if thorough else 1):
-                    cases.append(rt(w, sym, how, rng.choice(NUMBERS)))
+                    cases.append(rt(w, sym, how, pick_num()))
     # other class / explicit unit
     for _ in range(1200 if thorough else 120):
         w = pick_world()
@@ -289,11 +318,11 @@ def gen_cases(rng, tier):
         same = [s for s in syms if views.units[s]['clsname'] == own]
         r = rng.random()
         if r < 0.25 and others:
-            cases.append(rt(w, sym, 'cls:' + rng.choice(others), rng.choice(NUMBERS)))
+            cases.append(rt(w, sym, 'cls:' + rng.choice(others), pick_num()))
         else:
             v = rng.choice(same) if rng.random() < 0.8 else rng.choice(syms)
             how = rng.choice(['generic', 'own', 'own'] + (['cls:' + rng.choice(others)] if others else []))
-            cases.append(rt(w, sym, how, rng.choice(NUMBERS), unit=v))
+            cases.append(rt(w, sym, how, pick_num(), unit=v))
     for u in siref.TEMPERATURE:            # converter-backed explicit units
         for v in siref.TEMPERATURE:
             cases.append(rt(PRE, u, rng.choice(['generic', 'own']),
@@ -385,7 +414,7 @@ def gen_cases(rng, tier):
         else:
             spec = [rng.choice(['a', 'u', ' ', ':', 'x y', '[', '] ', '—'])
                     for _ in range(rng.randint(1, 5))]
-        cases.append({'kind': 'fmt', 'world': w, 'u': sym, 'n': rng.choice(NUMBERS),
+        cases.append({'kind': 'fmt', 'world': w, 'u': sym, 'n': rng.choice(SHORT_NUMBERS),
                       'spec': spec})
 
     # --- declaration of symbols
@@ -397,7 +426,7 @@ def gen_cases(rng, tier):
         ew = _edge_world()
         for s in EDGE_SYMBOLS:
             for how in ('generic', 'own'):
-                cases.append(rt(ew, s, how, rng.choice(NUMBERS)))
+                cases.append(rt(ew, s, how, pick_num()))
     if KEY_ZERODEN in known:
         for t in ZERODEN_TEXTS:
             cases.append(txt(PRE, None, t, 'm'))
@@ -546,12 +575,12 @@ def coq_case(case, r):
     if k == 'num':
         return (f"(TNumber {case['dm']} {_caller(case, views, case['cls'])} "
                 f"{_numarg(case['n'])} {_uarg(case['unit'], views)} "
-                f"{W.coq_obs(r['res'], views)})")
+                f"{coq_obs(r['res'], views)})")
     if k == 'parse':
         return (f"(TParse {case['dm']} {Q.coq_convs(case, views)} {_dir(case, views)} "
                 f"{_numtable(r)} {_caller(case, views, case['cls'])} "
                 f"{_uarg(case['unit'], views)} {cstr(case['text'])} "
-                f"{W.coq_obs(r['res'], views)})")
+                f"{coq_obs(r['res'], views)})")
     if r['q']['k'] != 'qty':
         return None
     a = cq(F(r['q']['amt']))
@@ -563,10 +592,19 @@ def coq_case(case, r):
                 f"{cstr(r['out'])})")
     how = case['how']
     cname = None if how == 'generic' else (views.units[case['u']]['clsname'] if how == 'own' else how[4:])
+    if r['numpart'] != r['shown'] or not r['text'].startswith(r['shown']):
+        # printer contract broken (the oracle reports it): plain parse case
+        return (f"(TParse {case['dm']} {Q.coq_convs(case, views)} {_dir(case, views)} "
+                f"{_numtable(r)} {_caller(case, views, cname)} "
+                f"{_uarg(case['unit'], views)} {cstr(r['text'])} "
+                f"{coq_obs(r['res'], views)})")
+    nr = r['numres']
+    numres = f"(Ok {cq(F(nr['ok']))})" if 'ok' in nr else f"(Err {nr['err']})"
     return (f"(TRound {case['dm']} {Q.coq_convs(case, views)} {_dir(case, views)} "
-            f"{_numtable(r)} {_caller(case, views, cname)} {_uarg(case['unit'], views)} "
-            f"{cstr(r['shown'])} {a} {views.coq(case['u'])} {cstr(r['text'])} "
-            f"{W.coq_obs(r['res'], views)})")
+            f"{numres} {_caller(case, views, cname)} {_uarg(case['unit'], views)} "
+            f"{cstr(r['shown'])} {a} {views.coq(case['u'])} "
+            f"{cstr(r['text'][len(r['shown']):])} "
+            f"{coq_obs(r['res'], views)})")
 
 
 def coq_model_term(case, r):
